@@ -115,3 +115,28 @@ Theorem C04_run_many_chunks_labelled : forall fexp cfg0 xs l (chunks : list (lis
   run fexp cfg0 (OFit xs (Some l) :: map (fun c => OFit (fst c) (Some (snd c))) chunks ++ tl) =
   run fexp cfg0 (OFit (xs ++ concat (map fst chunks)) (Some (l ++ concat (map snd chunks))) :: tl).
 Proof. exact (@run_many_chunks_labelled). Qed.
+
+(* ---- where fit() consults the page manager (Proofs/GenTieFit.v, extracted from the source) ----
+   once per row, after the insertion and after both counters advanced, with the number of rows consumed IN
+   THIS CALL (arr_idx, initialised to 0); an array input never releases *)
+From BB Require Import Model.FitPlan Gen.GFit Gen.GMem Proofs.GenTieFit.
+Theorem C04_source_tie_release_position :
+  once_before SInsertRoot SReleaseCheck GFit.fit_loop_body = true /\
+  once_before SCountOne SReleaseCheck GFit.fit_loop_body = true /\
+  once_before SArrIdxInc SReleaseCheck GFit.fit_loop_body = true /\
+  once_before SInsertRoot SCountOne GFit.fit_loop_body = true /\
+  once_before SInsertRoot SReleaseCheck GFit.fit_buffers_loop_body = true /\
+  once_before SCountMembers SReleaseCheck GFit.fit_buffers_loop_body = true /\
+  once_before SArrIdxInc SReleaseCheck GFit.fit_buffers_loop_body = true.
+Proof. exact release_check_position. Qed.
+Theorem C04_source_tie_release_step : forall m k,
+  fit_releases m (S k) GFit.fit_arr_idx_init =
+  let f := run_fit_mem GFit.fit_loop_body m GFit.fit_arr_idx_init in
+  m_rel f ++ fit_releases (m_mm f) k (m_idx f).
+Proof. exact fit_releases_step_gen. Qed.
+Theorem C04_source_tie_array_never_releases : forall for_path for_array rest,
+  GFit.fit_pre_loop = PManager for_path for_array :: rest ->
+  forall is_memmap ndim cols offset data pagesize,
+    fst (fst (fst (GMem.from_bb_input is_memmap ndim cols offset data pagesize
+                                      (mm_ctor_arg for_array)))) = false.
+Proof. exact array_input_never_releases. Qed.
